@@ -592,10 +592,12 @@ func (s *sim) run(sp *runSpec) string {
 
 	// which files were REPLACED by this run (atomicGobWrite renames a new inode into place)
 	s.replaced = ""
-	if fi, err := os.Lstat(s.tombPath()); err == nil && fi.Mode().IsRegular() && inode(s.tombPath()) != tombIno {
+	// (where a read fault had planted a symlink, the old inode was freed and may be reused:
+	// a regular file there now IS the replacement)
+	if fi, err := os.Lstat(s.tombPath()); err == nil && fi.Mode().IsRegular() && (sp.fTombRd || inode(s.tombPath()) != tombIno) {
 		s.replaced += "t"
 	}
-	if fi, err := os.Lstat(s.statePath()); err == nil && fi.Mode().IsRegular() && inode(s.statePath()) != stateIno {
+	if fi, err := os.Lstat(s.statePath()); err == nil && fi.Mode().IsRegular() && (sp.fStateRd || inode(s.statePath()) != stateIno) {
 		s.replaced += "s"
 	}
 	if s.replaced == "" {
